@@ -566,13 +566,32 @@ Lemma draw_to_term_bottom_noshift ls n below W H :
   draw_to_term ls n Bottom below W H = draw_to_term ls n Top below W H.
 Proof.
   intros Hle. unfold draw_to_term.
-  destruct (N.ltb_spec (visual_line_count ls W) n); [lia | reflexivity].
+  destruct (N.ltb_spec (visual_line_count ls W) (N.min n H)); [lia | reflexivity].
 Qed.
 
 (** the call list of a Bottom draw of a shrunken region: erase, padding, loop, flush.  After fix
     881c313 an EMPTY vector whose padding is at least as tall as the terminal ([full_pad]) gets one
     padding line less and cursor_below' = false *)
+Lemma paint_pad_nonnil W H sh : forall ls idx total padded,
+  ls <> [] -> bar_rows ls W <= H ->
+  fst (fst (paint_pad ls idx total W H 0 sh padded)) <> [].
+Proof.
+  intros ls idx total padded Hne Hfit. destruct ls as [|l r]; [congruence|]. cbn [paint_pad].
+  assert (Hb : (is_bar l && (H <? 0 + wrapped_height l W)) = false).
+  { destruct (is_bar l) eqn:Eb; [|reflexivity]. cbn [andb]. apply N.ltb_ge.
+    unfold bar_rows in Hfit. cbn [filter] in Hfit. rewrite Eb in Hfit.
+    rewrite visual_line_count_cons in Hfit. lia. }
+  rewrite Hb.
+  destruct (paint_pad r (idx + 1) total W H (if is_bar l then 0 + wrapped_height l W else 0) sh (padded || is_bar l))
+    as [[ops rf] pf].
+  cbn [fst]. intros Hnil. apply app_eq_nil in Hnil. destruct Hnil as [_ Hnil].
+  apply app_eq_nil in Hnil. destruct Hnil as [_ Hnil]. discriminate.
+Qed.
+
+(** (after fixes 7d42cff / dadbe71: the count is capped at the height - here n <= H -, and the new
+    cursor_below is false iff the loop itself wrote a line) *)
 Lemma draw_to_term_bottom_eq ls n below W H :
+  n <= H ->
   visual_line_count ls W < n ->
   let sh := n - visual_line_count ls W in
   let padded0 := negb (starts_with_text ls) in
@@ -583,15 +602,15 @@ Lemma draw_to_term_bottom_eq ls n below W H :
             then repeat (TLine []) (N.to_nat (sh - (if full_pad ls sh H then 1 else 0)))
             else []) ++ fst (fst r)) ++ [TFlush],
      snd (fst r) + (if snd r then sh else 0),
-     match ls with [] => negb (full_pad ls sh H) | _ => false end).
+     match fst (fst r) with [] => negb (full_pad ls sh H) | _ => false end).
 Proof.
-  intros Hlt. cbv zeta. unfold draw_to_term.
+  intros HnH Hlt. cbv zeta. unfold draw_to_term. rewrite (N.min_l n H HnH).
   destruct (N.ltb_spec (visual_line_count ls W) n) as [_|]; [|lia].
   destruct (N.eqb_spec (n - visual_line_count ls W) 0) as [|_]; [lia|].
   destruct (paint_pad ls 0 (N.of_nat (length ls)) W H 0 (n - visual_line_count ls W)
               (negb (starts_with_text ls))) as [[po re] pf].
   cbn [fst snd]. rewrite <- !app_assoc. f_equal.
-  destruct ls; [|reflexivity]. cbn [negb]. destruct (N.eqb_spec n 0); [lia | reflexivity].
+  destruct po; [|reflexivity]. destruct (N.eqb_spec n 0); [lia | reflexivity].
 Qed.
 
 Lemma full_pad_cons l r sh H : full_pad (l :: r) sh H = false.
@@ -651,7 +670,8 @@ Section DrawBottom.
     assert (HWn : 1 <= Wn) by (unfold Wn; lia).
     assert (HHn : 1 <= Hn) by (unfold Hn; lia).
     intros Hr HF Hn' Hb Hlt Hfit. cbv zeta.
-    rewrite (draw_to_term_bottom_eq ls n below W H Hlt). cbn [fst snd].
+    assert (HnleH : (n <= H)%N) by (pose proof (ready_reach_le Wn Hn _ t HHn Hr); unfold Hn in *; lia).
+    rewrite (draw_to_term_bottom_eq ls n below W H HnleH Hlt). cbn [fst snd].
     rewrite run_ops_app, run_ops_flush.
     destruct (erase_phase W H HW HH C F t n below Hr HF Hn' (fun _ => Hb)) as (Hr1 & Hre1 & Hc1 & _).
     fold Wn Hn in Hr1, Hre1, Hc1.
@@ -703,6 +723,11 @@ Section DrawBottom.
     - rewrite <- Els in *. assert (Hne : ls <> []) by (rewrite Els; discriminate).
       assert (Hfp : full_pad ls (n - visual_line_count ls W) H = false) by (rewrite Els; reflexivity).
       rewrite Hfp, N.sub_0_r.
+      pose proof (paint_pad_nonnil W H (n - visual_line_count ls W)%N ls 0 (N.of_nat (length ls))
+                    (negb (starts_with_text ls)) Hne Hfit) as Hpo.
+      destruct (fst (fst (paint_pad ls 0 (N.of_nat (length ls)) W H 0 (n - visual_line_count ls W)
+                            (negb (starts_with_text ls))))) as [|o0 po0] eqn:Epo; [congruence|].
+      rewrite <- Epo.
       destruct (paint_pad_spec W H HW HH C t1 ls (n - visual_line_count ls W)%N Hr1 Hc1' Hfit)
         as (Pa & Pb & Pc & _ & Pe).
       fold Wn Hn in Pc, Pe.
@@ -774,10 +799,11 @@ Definition bottom_shift (ls : list line) (n W H : N) : N :=
 Definition draw_shift (al : alignment) (ls : list line) (n W H : N) : N :=
   match al with Bottom => bottom_shift ls n W H | Top => 0 end.
 
-(** every draw, either alignment: last_line_count' = rows of the painted Bar lines + the padding *)
+(** every draw, either alignment: last_line_count' = rows of the painted Bar lines + the padding,
+    computed from the count CAPPED at the height (fix 7d42cff) *)
 Lemma draw_to_term_count ls n al below W H :
   snd (fst (draw_to_term ls n al below W H))
-  = bar_rows (painted ls W H 0) W + draw_shift al ls n W H.
+  = bar_rows (painted ls W H 0) W + draw_shift al ls (N.min n H) W H.
 Proof.
   unfold draw_to_term, draw_shift, bottom_shift.
   set (sh0 := match al with Bottom => _ | Top => 0 end).
@@ -785,12 +811,12 @@ Proof.
   - pose proof (paint_real' W H ls 0 (N.of_nat (length ls)) 0) as Hp.
     destruct (paint ls 0 (N.of_nat (length ls)) W H 0) as [po re]. cbn [fst snd] in *.
     rewrite Hp. destruct al; [lia|]. unfold sh0 in E0.
-    destruct (N.ltb_spec (visual_line_count ls W) n); cbn [andb]; [|lia].
+    destruct (N.ltb_spec (visual_line_count ls W) (N.min n H)); cbn [andb]; [|lia].
     destruct (negb (starts_with_text ls) || existsb is_bar (painted ls W H 0)); lia.
   - destruct (paint_pad_real W H sh0 ls 0 (N.of_nat (length ls)) 0 (negb (starts_with_text ls))) as [Hp1 Hp2].
     destruct (paint_pad ls 0 (N.of_nat (length ls)) W H 0 sh0 (negb (starts_with_text ls))) as [[po re] pf].
     cbn [fst snd] in *. rewrite Hp1, Hp2. destruct al; [unfold sh0 in E0; lia|]. unfold sh0 in *.
-    destruct (N.ltb_spec (visual_line_count ls W) n); cbn [andb]; [|lia].
+    destruct (N.ltb_spec (visual_line_count ls W) (N.min n H)); cbn [andb]; [|lia].
     destruct (negb (starts_with_text ls) || existsb is_bar (painted ls W H 0)); lia.
 Qed.
 
@@ -798,16 +824,17 @@ Lemma bottom_shift_zero ls W H : bottom_shift ls 0 W H = 0.
 Proof. unfold bottom_shift. destruct (N.ltb_spec (visual_line_count ls W) 0); [lia | reflexivity]. Qed.
 
 (** C19 (c) for Bottom alignment, one draw (every line vector, every previous count, W, H):
-    n' = rows of the painted Bar lines + the counted padding [sh]; the Bar rows are at most H, so
-    n' <= H + sh; the region never grows: n' <= max n (bar rows); sh is 0 or n - full > 0; the
+    n' = rows of the painted Bar lines + the counted padding [sh] (computed from the count capped at
+    H, fix 7d42cff); the Bar rows are at most H and n' <= H; the region never grows: n' <= max n (bar rows); sh is 0 or n - full > 0; the
     painted lines are the maximal fitting prefix, everything as soon as the Bar lines fit *)
 Lemma draw_rows_bounded_bottom W H ls n below :
   let n' := snd (fst (draw_to_term ls n Bottom below W H)) in
   let P := painted ls W H 0 in
-  let sh := bottom_shift ls n W H in
-  n' = bar_rows P W + sh /\ bar_rows P W <= H /\ n' <= H + sh
-  /\ n' <= N.max n (bar_rows P W)
-  /\ (sh = 0 \/ (visual_line_count ls W < n /\ sh = n - visual_line_count ls W))
+  let nc := N.min n H in
+  let sh := bottom_shift ls nc W H in
+  n' = bar_rows P W + sh /\ bar_rows P W <= H /\ n' <= H
+  /\ n' <= N.max nc (bar_rows P W)
+  /\ (sh = 0 \/ (visual_line_count ls W < nc /\ sh = nc - visual_line_count ls W))
   /\ (exists rest, ls = P ++ rest
         /\ match rest with
            | [] => True
@@ -818,13 +845,16 @@ Proof.
   cbv zeta. rewrite draw_to_term_count. cbn [draw_shift].
   pose proof (painted_bar_rows_le W H ls 0 ltac:(lia)) as Hle.
   destruct (painted_prefix W H ls 0) as (rest & Heq & Hrest).
-  assert (Hsh : bottom_shift ls n W H = 0
-                \/ (visual_line_count ls W < n /\ bottom_shift ls n W H = n - visual_line_count ls W)).
-  { unfold bottom_shift. destruct (N.ltb_spec (visual_line_count ls W) n); cbn [andb]; [|now left].
+  set (nc := N.min n H).
+  assert (Hnc : nc <= H) by (unfold nc; lia).
+  assert (Hsh : bottom_shift ls nc W H = 0
+                \/ (visual_line_count ls W < nc /\ bottom_shift ls nc W H = nc - visual_line_count ls W)).
+  { unfold bottom_shift. destruct (N.ltb_spec (visual_line_count ls W) nc); cbn [andb]; [|now left].
     destruct (negb (starts_with_text ls) || existsb is_bar (painted ls W H 0)); [right; split; [assumption|reflexivity] | now left]. }
   assert (HPle : bar_rows (painted ls W H 0) W <= visual_line_count ls W).
   { pose proof (bar_rows_le_vlc ls W) as Hb. rewrite Heq in Hb at 1. rewrite bar_rows_app in Hb. lia. }
-  split; [reflexivity|]. split; [lia|]. split; [lia|]. split; [destruct Hsh as [->|[Hlt ->]]; lia|].
+  split; [reflexivity|]. split; [lia|]. split; [destruct Hsh as [->|[Hlt ->]]; lia|].
+  split; [destruct Hsh as [->|[Hlt ->]]; lia|].
   split; [exact Hsh|]. split.
   - exists rest. split; [exact Heq|]. destruct rest; [exact I|]. destruct Hrest. split; [assumption | lia].
   - intros Hfit. apply painted_all. lia.
